@@ -14,7 +14,7 @@ B6 admission only if the whole volume fits (shared with C08.A5)
 import ast
 
 from ..index import AnalysisError, is_spawn, walk_no_nested
-from ..norm import Affine, Canon, Lit, Logic, ProvCanon, affine, effects_of_event, lit_le, lit_lt
+from ..norm import Affine, Canon, Lit, Logic, ProvCanon, affine, effects_of_event, path_effects, lit_le, lit_lt, effects_along
 from ..paths import Frame, cached_paths, contains_yield, expanded_paths
 from ..skel import outcomes
 from .common import (bound_args, call_name, enclosing_loops, iteration_segments, path_must, short,
@@ -101,8 +101,8 @@ def b1_b2(repo, res, canon, pc, logic):
         dec = inc = Affine()
         ndec = ninc = 0
         first_ctl = None
-        for k, e in enumerate(seg):
-            for ef in effects_of_event(canon, e):
+        for k, (e, _efs) in enumerate(effects_along(canon, seg)):
+            for ef in _efs:
                 if ef.loc == HOTCAP:
                     if ef.kind == 'aug-':
                         dec = dec + affine(canon, ef.value, e.frame)
@@ -132,7 +132,7 @@ def b1_b2(repo, res, canon, pc, logic):
     stored = "HotBuffer.observations['stored']"
     okst = True
     for seg, end, p in segs:
-        apps = [ef for e in seg for ef in effects_of_event(canon, e) if ef.loc == stored and ef.kind == 'append']
+        apps = [ef for ef in path_effects(canon, seg) if ef.loc == stored and ef.kind == 'append']
         ends = end != 'back'
         if any(e.kind == 'exit' and e.extra == 'raise' for e in seg):
             continue
@@ -188,9 +188,9 @@ def countdown(repo, res, canon, g, dur):
             for e in seg:
                 if e.kind == 'test':
                     must |= logic.must(e.node, e.frame, e.pol)
-            decs = sum(1 for e in seg for ef in effects_of_event(canon, e)
+            decs = sum(1 for ef in path_effects(canon, seg)
                        if ef.loc == cname and ef.kind == 'aug-' and ef.arg == '1')
-            other = [ef for e in seg for ef in effects_of_event(canon, e)
+            other = [ef for ef in path_effects(canon, seg)
                      if ef.loc == cname and not (ef.kind == 'aug-' and ef.arg == '1')]
             if other:
                 ok, why = False, 'the countdown is changed by `%s`' % short(ast.unparse(other[0].node))
@@ -234,7 +234,7 @@ def b3(repo, res, canon, logic):
     for p in paths:
         ret = [e.node for e in p.events if e.kind == 'stmt' and isinstance(e.node, ast.Return)]
         val = ret[-1].value.value if ret and isinstance(ret[-1].value, ast.Constant) else None
-        effs = [ef for e in p.events for ef in effects_of_event(canon, e)]
+        effs = path_effects(canon, p.events)
         cap = [ef for ef in effs if ef.loc == HOTCAP]
         sched_rm = [ef for ef in effs if ef.loc == "HotBuffer.observations['scheduled']" and ef.kind == 'remove' and ef.arg == obs]
         fin_app = [ef for ef in effs if ef.loc == "HotBuffer.observations['finished']" and ef.kind == 'append' and ef.arg == obs]
@@ -272,8 +272,8 @@ def b4(repo, res, canon, logic):
     nd = 0
     limit_lits = {lit_le(r, 'HotBuffer.max_ingest_data_rate'), lit_le('int(%s)' % r, 'HotBuffer.max_ingest_data_rate')}
     for p in paths:
-        for i, e in enumerate(p.events):
-            for ef in effects_of_event(canon, e):
+        for i, (e, _efs) in enumerate(effects_along(canon, p.events)):
+            for ef in _efs:
                 if ef.loc == HOTCAP:
                     nd += 1
                     must = path_must(logic, p, i)
